@@ -21,6 +21,7 @@ type Loader struct {
 	funcs  map[string]*ssa.Function // pkgpath::relname
 	byPath map[string]*packages.Package
 	loaded map[string]bool
+	byName map[string]*types.Package
 }
 
 func loadEnv() []string {
@@ -46,7 +47,7 @@ func loadModule(dir string, patterns []string) (*Loader, error) {
 	if len(errs) > 0 {
 		return nil, fmt.Errorf("package errors:\n%s", strings.Join(errs, "\n"))
 	}
-	prog, spkgs := ssautil.Packages(pkgs, ssa.InstantiateGenerics)
+	prog, spkgs := ssautil.Packages(pkgs, ssa.InstantiateGenerics|ssa.GlobalDebug)
 	prog.Build()
 	ld := &Loader{fset: fset, pkgs: pkgs, prog: prog, spkgs: spkgs, funcs: map[string]*ssa.Function{}, byPath: map[string]*packages.Package{}, loaded: map[string]bool{}}
 	for _, p := range pkgs {
@@ -104,4 +105,29 @@ func (ld *Loader) contracts(cs *ContractSet) {
 			cs.parseFile(ld.fset, f, p.PkgPath)
 		}
 	}
+}
+
+// pkgByName finds a types.Package by its package name among everything the loaded packages import.
+func (ld *Loader) pkgByName(name string) *types.Package {
+	if ld.byName == nil {
+		ld.byName = map[string]*types.Package{}
+		seen := map[*types.Package]bool{}
+		var walk func(p *types.Package)
+		walk = func(p *types.Package) {
+			if seen[p] {
+				return
+			}
+			seen[p] = true
+			if _, ok := ld.byName[p.Name()]; !ok {
+				ld.byName[p.Name()] = p
+			}
+			for _, i := range p.Imports() {
+				walk(i)
+			}
+		}
+		for _, p := range ld.pkgs {
+			walk(p.Types)
+		}
+	}
+	return ld.byName[name]
 }
